@@ -539,6 +539,32 @@ var upperBounds = map[int]*Term{}
 
 func NoteUpperBound(t, bound *Term) { upperBounds[t.id] = bound }
 
+// KnownGe reports that x >= y follows from the recorded bounds.
+func KnownGe(x, y *Term) bool {
+	if x == y || knownGreater(x, y) {
+		return true
+	}
+	bx, kx := linForm(x)
+	by, ky := linForm(y)
+	if bx == by && kx.Cmp(ky) >= 0 {
+		return true
+	}
+	// x = f + k with f >= base + j: follow the chain allowing equality
+	k := new(big.Int).Set(kx)
+	for i := 0; i < 64 && bx != nil; i++ {
+		lb, ok := lowerBounds[bx.id]
+		if !ok {
+			return false
+		}
+		bx = lb.base
+		k = new(big.Int).Add(k, lb.k)
+		if bx == by && k.Cmp(ky) >= 0 {
+			return true
+		}
+	}
+	return false
+}
+
 // knownGreater reports that x > y follows from the recorded bounds.
 func knownGreater(x, y *Term) bool {
 	if ub, ok := upperBounds[y.id]; ok {
@@ -964,7 +990,25 @@ func Select(a, i *Term) *Term {
 	return r
 }
 
+// frozenBelow records, for a havocked heap component (a fresh array symbol),
+// the component it replaced and an allocation bound: cells of objects older
+// than the bound are unchanged (the loop only wrote objects it allocated).
+type frozen struct {
+	old   *Term
+	bound *Term
+}
+
+var frozenBelow = map[int]frozen{}
+
 func select1(a, i *Term) *Term {
+	if a.Op == "sym" && i.Sort == LocS {
+		if fb, ok := frozenBelow[a.id]; ok {
+			obj := LocObj(i)
+			if knownGreater(fb.bound, obj) {
+				return Select(fb.old, i)
+			}
+		}
+	}
 	if a.Sort.Kind != "array" {
 		panic("select on " + a.Sort.Name)
 	}
